@@ -683,7 +683,14 @@ def run(ctx, proofs):
             "many canonical paths; the real fs::canonicalize, symlink races and permissions are observed, not proved",
             "file contents are abstracted to their include lists (path, byte range) or a parse error; the parser proper is C04/C05/C18's",
             "directory expansion of named directories is modelled with fuel (nesting depth); directory symlink cycles are left to the OS limit",
-            "the report filter of the CLI (findings only for user inputs) is C03's; here `is_user_input` is proved and the CLI output observed",
+            "the report filter: C19_included_only_report_never_displayed / C19_displayed_findings_come_from_named_files compose "
+            "Model.Includes with C03's Model.Runner (filter_by_file, analysis of user definitions only) through "
+            "Model.IncludesRunner.file_library_user_inputs, a three-line mirror of FileLibrary::add_file; that Model.Runner is main.rs "
+            "is C03's correspondence, that FileLibrary numbers files in call order is read off the source, and the CLI output "
+            "(analysing lines, finding locations, every named file reported on) is observed here on every project",
+            "the tie between the hand mirror of include_logic.rs and the code, and between the tables and the real fs::canonicalize / "
+            "symlink resolution, is differential only (every fixed shape with every subset of named files, subsets of up to 4 in every "
+            "order; random projects with symlinks, `../` and cycles); nothing about the operating system is proved",
         ]
     finally:
         shutil.rmtree(base, ignore_errors=True)
